@@ -349,6 +349,17 @@ def handle_pairs(ctx, res, scenarios, results, tag, seen, max_shrink=2):
                         small, spair = out['scenario'], out['pair']
                 except Exception as e:  # noqa: BLE001
                     ctx.log('shrink failed: %s' % e)
+            if spair['diff']['observable'].startswith('own:'):
+                res['violations'].append({
+                    'key': {'oracle': 'failing-port', 'rule': spair['diff']['observable'][4:],
+                            'fault_sites': '+'.join(fault_sites(small))},
+                    'what': 'the failing port itself does not keep its last good value / is not retried after 10 s / does not '
+                            'recover (rule "%s")' % spair['diff']['observable'][4:],
+                    'case': small, 'expected': 'last value kept on error/skip; not read for 10 s after a read error, read at the '
+                                               'first pass after that; driver value taken when the read succeeds',
+                    'observed': spair['diff'],
+                })
+                continue
             res['violations'].append({
                 'key': {'oracle': 'paired-run', 'fault_sites': '+'.join(fault_sites(small)),
                         'escaped_update': escaped(spair['faulty_run'])},
